@@ -31,18 +31,27 @@ pub struct Swarm {
     /// if set, operand scales are squeezed toward this regime polarity to build up deep states
     pub small_bias: u32,
     pub mode: Mode,
+    /// stratified first event (see pick_qt)
+    pub first: Option<Ev>,
 }
 
-fn pick_qt(rng: &mut Prng) -> QT {
-    match rng.weighted(&[2, 3, 5]) {
-        0 => QT::Q8,
-        1 => QT::Q16,
-        _ => QT::Q32,
+/// Quire type and stratum index of a run. The type is a function of the run index (2:3:5), so
+/// that the runs of each small type can be numbered: the first 65536 Q8E0 runs start with the
+/// product of the sidx-th operand PAIR (all 2^16 pairs of P8E0 patterns), the first 65536 Q16E1
+/// runs start by adding / loading the sidx-th P16E1 pattern. Every quick batch therefore puts
+/// every P8E0 product and every P16E1 posit through the quire once, whatever the seed; the rest
+/// of each history is seeded as usual.
+fn pick_qt(run: u64) -> (QT, u64) {
+    let (d, m) = (run / 10, run % 10);
+    match m {
+        0 | 1 => (QT::Q8, d * 2 + m),
+        2 | 3 | 4 => (QT::Q16, d * 3 + (m - 2)),
+        _ => (QT::Q32, d * 5 + (m - 5)),
     }
 }
 
-pub fn draw_swarm(rng: &mut Prng, mode: Mode, st: &mut Stats) -> Swarm {
-    let qt = pick_qt(rng);
+pub fn draw_swarm(rng: &mut Prng, mode: Mode, run: u64, st: &mut Stats) -> Swarm {
+    let (qt, sidx) = pick_qt(run);
     st.hit(match qt {
         QT::Q8 => Pr::runs_q8,
         QT::Q16 => Pr::runs_q16,
@@ -115,7 +124,33 @@ pub fn draw_swarm(rng: &mut Prng, mode: Mode, st: &mut Stats) -> Swarm {
     if w_spell.iter().all(|&w| w == 0) {
         w_spell[0] = 1;
     }
+    let first = if sidx < 65536 {
+        match qt {
+            QT::Q8 => {
+                st.hit(Pr::strat_q8);
+                let sp = [Sp::Prod, Sp::ProdM, Sp::ProdT][rng.below(3) as usize];
+                Some(Ev::Acc(Acc { sp, sub: rng.chance(1, 2), ops: vec![(sidx >> 8) as u32 & 0xFF, sidx as u32 & 0xFF] }))
+            }
+            QT::Q16 => {
+                st.hit(Pr::strat_q16);
+                let p = sidx as u32 & 0xFFFF;
+                if mode == Mode::C12 {
+                    // the round-trip clause of C12, for every P16E1 pattern
+                    Some(Ev::Load(p, rng.below(3) as u8))
+                } else if rng.chance(1, 2) {
+                    Some(Ev::Acc(Acc { sp: Sp::One, sub: rng.chance(1, 2), ops: vec![p] }))
+                } else {
+                    let ops = if rng.chance(1, 2) { vec![p, qt.one()] } else { vec![qt.one(), p] };
+                    Some(Ev::Acc(Acc { sp: Sp::Prod, sub: rng.chance(1, 2), ops }))
+                }
+            }
+            QT::Q32 => None,
+        }
+    } else {
+        None
+    };
     Swarm {
+        first,
         qt,
         len,
         init_via,
@@ -454,7 +489,7 @@ pub fn generate_and_run_traced(seed: u64, run: u64, mode: Mode, st: &mut Stats, 
         Mode::C12 => STREAM_QUIRE_C12,
     };
     let mut rng = Prng::for_run(seed, stream, run);
-    let sw = draw_swarm(&mut rng, mode, st);
+    let sw = draw_swarm(&mut rng, mode, run, st);
     if let Some(t) = trace.as_mut() {
         let _ = writeln!(t, "type {}\ninit_via {}", sw.qt.name(), sw.init_via);
         let _ = t.flush();
@@ -620,9 +655,19 @@ fn gen_t<S: Sut>(rng: &mut Prng, sw: &Swarm, st: &mut Stats, mut trace: Option<&
     let mut fallback = 0u64;
     let mut cancels = 0u64;
     let mut boundaries = 0u64;
-    for _ in 0..sw.len {
+    for step_no in 0..sw.len {
         let mut chosen: Option<(Ev, bool, bool)> = None;
+        if step_no == 0 {
+            if let Some(ev) = &sw.first {
+                if runner.valid(ev).is_ok() {
+                    chosen = Some((ev.clone(), false, false));
+                }
+            }
+        }
         for _try in 0..24 {
+            if chosen.is_some() {
+                break;
+            }
             let mut kind = rng.weighted(&sw.w_event);
             // C12: a state that was just placed on a rounding boundary (injected image, boundary
             // accumulate) is the interesting input of the residual split — go there half the time
